@@ -90,7 +90,9 @@ def register5(E):
                 t = c.split('Entry::<', 1)[1]
                 if re.search(r', (std::vec::)?Vec<', t) or re.search(r', (smallvec::)?SmallVec<', t): val = Vec([])
                 elif re.search(r', (usize|u32|u64|i32|i64|u8)>', t): val = 0
-                else: raise EngineError('or_default value type in ' + c)
+                else:
+                    targs = split_top(re.search(r'Entry::<(.*)>::or_default$', c).group(1))
+                    val = e.call(f'<{targs[-1].strip()} as Default>::default', [])
             m.items.insert(i, (k, [val]))
         else: m, i = en.f
         return Ref(m.items[i][1], 0)
@@ -174,6 +176,97 @@ def register5(E):
     @R(r' as (std::io::)?Read>::read_to_end$')
     def _(e, c, a):
         r = reader_of(a[0]); s = r.get(); v = deref(a[1]); v.l.extend(s.items()); r.set(SliceRef(s.l, s.hi, s.hi)); return OK(len(s))
+    # ---------------------------------------------------------------- more iterator machinery
+    @R(r'as Itertools>::(kmerge_by|kmerge)(::<.*)?$')
+    def _(e, c, a):
+        lists = [E.drain_iter(E.it_of(x)) for x in E.drain_iter(E.it_of(a[0]))]
+        out = []
+        def less(x, y):
+            if 'kmerge_by' in c: return e.branch(e.closure_call(a[1], [Ref([x], 0), Ref([y], 0)]))
+            return e.cmp3(x, y) == 'Less'
+        while any(lists):
+            best = next(i for i, l in enumerate(lists) if l)
+            for j in range(best + 1, len(lists)):
+                if lists[j] and less(lists[j][0], lists[best][0]): best = j
+            out.append(lists[best].pop(0))
+        return It('list', l=out, pos=0)
+    @R(r'^(std|core)::iter::from_fn::<|^from_fn::<')
+    def _(e, c, a): return It('from_fn', f=a[0])
+    prev_next = E.it_next
+    def it_next5(it):
+        if it.kind == 'from_fn': return E.closure_call(it.f, [])
+        if it.kind == 'ptw':
+            p = it.a
+            if p.peeked is None: p.peeked = E.it_next(p.a)
+            if p.peeked.v == 'None': return NONE()
+            if E.branch(E.closure_call(it.f, [Ref(p.peeked.f, 0)])):
+                r = p.peeked; p.peeked = None; return r
+            return NONE()
+        return prev_next(it)
+    E.it_next = it_next5
+    @R(r'Peekable::<.*>::next_if::<')
+    def _(e, c, a):
+        p = deref(a[0])
+        if p.peeked is None: p.peeked = E.it_next(p.a)
+        if p.peeked.v == 'None': return NONE()
+        if e.branch(e.closure_call(a[1], [Ref(p.peeked.f, 0)])):
+            r = p.peeked; p.peeked = None; return r
+        return NONE()
+    @R(r'as (itertools::)?PeekingNext>::peeking_take_while::<|as Itertools>::peeking_take_while::<')
+    def _(e, c, a):
+        p = deref(a[0])
+        if not isinstance(p, It) or p.kind != 'peekable': raise EngineError('peeking_take_while on ' + repr(p))
+        return It('ptw', a=p, f=a[1])
+    @R(r'^core::num::<impl (usize|u8|u16|u32|u64)>::(is_multiple_of|is_power_of_two|count_ones|leading_zeros|trailing_zeros|pow|abs_diff|div_ceil|next_multiple_of|checked_mul|checked_div|rem_euclid|div_euclid)$')
+    def _(e, c, a):
+        op = c.rsplit('::', 1)[1]; x = a[0]; y = a[1] if len(a) > 1 else None
+        if not isinstance(x, int) or (y is not None and not isinstance(y, int)): raise EngineError('symbolic ' + c)
+        if op == 'is_multiple_of': return (x == 0) if y == 0 else x % y == 0
+        if op == 'is_power_of_two': return x > 0 and x & (x - 1) == 0
+        if op == 'count_ones': return bin(x).count('1')
+        if op == 'leading_zeros': return 64 - x.bit_length()
+        if op == 'trailing_zeros': return 64 if x == 0 else (x & -x).bit_length() - 1
+        if op == 'pow': return x ** y
+        if op == 'abs_diff': return abs(x - y)
+        if op == 'div_ceil': return -(-x // y)
+        if op == 'next_multiple_of': return -(-x // y) * y
+        if op == 'checked_mul': return SOME(x * y) if x * y < (1 << 64) else NONE()
+        if op == 'checked_div': return SOME(x // y) if y else NONE()
+        if op == 'rem_euclid': return x % y
+        return x // y
+    @R(r'^<(.*) as Into<(.*)>>::into$')
+    def _(e, c, a):
+        mm = re.match(r'^<(.*) as Into<(.*)>>::into$', c); src, dst = mm.group(1), mm.group(2)
+        from .mir import type_key
+        if not type_key(dst).startswith(('std::', 'core::', 'alloc::')) and type_key(dst) not in ('String', 'Vec', 'Box', 'BString', 'SmallVec', 'PathBuf', 'Option'):
+            try: f = e._find_impl('from', 'From', type_key(dst), 1, src)
+            except EngineError: f = None
+            if f is not None: return e.call_mir(f, [a[0]])
+        for rx, g in E.models:
+            if g is not _into and rx.search(c): return g(e, c, a)
+        return a[0]
+    _into = _
+    @R(r'^<(.*) as TryInto<(.*)>>::try_into$')
+    def _(e, c, a):
+        mm = re.match(r'^<(.*) as TryInto<(.*)>>::try_into$', c); src, dst = mm.group(1), mm.group(2)
+        from .mir import type_key
+        f = e._find_impl('try_from', 'TryFrom', type_key(dst), 1, src)
+        if f is None:          # impls generated by a derive (e.g. prost::Enumeration): match by signature
+            cs = [g for g in e.ix.by_simple.get('try_from', []) if len(g.args) == 1 and g.args[0].strip() == src.strip() and type_key(dst) in g.ret]
+            if len(cs) == 1: f = cs[0]
+        if f is not None: return e.call_mir(f, [a[0]])
+        for rx, g in E.models:
+            if g is not _try_into and rx.search(c): return g(e, c, a)
+        raise EngineError('no model for ' + c)
+    _try_into = _
+    @R(r'^(std::sync::)?(LazyLock|OnceLock|LazyCell)::<.*>::new$')
+    def _(e, c, a): return Agg(list(a), 'LazyLock')
+    @R(r'^<(std::sync::)?(LazyLock|LazyCell)<.*> as Deref>::deref$|^(std::sync::)?LazyLock::<.*>::force$')
+    def _(e, c, a):
+        v = deref(a[0])
+        if not (isinstance(v, Agg) and v.ty == 'LazyLock'): raise EngineError(f'LazyLock deref on {v!r}')
+        if len(v.f) == 1: v.f.append(e.closure_call(v.f[0], []))
+        return Ref(v.f, 1)
     @R(r'^(futures::future::)?(try_join_all|join_all)::<')
     def _(e, c, a):
         futs = E.drain_iter(E.it_of(a[0])); out = []
